@@ -156,6 +156,18 @@ theorem cache_no_call_resident_partial (c : Cache8.T) (key fv : Nat)
 
 example : (Cache8.get (Cache8.get {} 5 50).1 5 51).2 = (50, false) := by decide
 
+/-- `Get(k) = getter(k)` also in histories where some getter calls fail (panic, recovered by the
+caller: nothing may be cached for that key) and some getters re-enter the cache with another
+`Get`: every value handed out — by outer and inner calls — is the getter's value for its key. -/
+theorem cache_get_eq_getter_ops (f : Nat → Nat) (ops : List Gsu.Proofs.Containers.Cache8.Op) :
+    ∀ p ∈ Gsu.Proofs.Containers.Cache8.runOps f {} ops, p.2 = f p.1 :=
+  Gsu.Proofs.Containers.Cache8.runOps_sound f {} (Gsu.Proofs.Containers.Cache8.new_inv f) ops
+
+/-- a failed getter leaves no entry behind: the slots are unchanged -/
+theorem cache_failed_getter_caches_nothing (c : Cache8.T) (k : Nat) :
+    (Cache8.getFail c k).1.slots = c.slots := by
+  unfold Cache8.getFail; split <;> rfl
+
 /-! ### shmap — SPEC LEVEL ONLY (association list; the Swiss table itself is tied only by the
 differential run) -/
 
